@@ -1402,7 +1402,11 @@ impl Universe {
                                 _ => None,
                             };
                             let _ = w;
-                            if let Some(z) = zone {
+                            // only an object that does not exist yet can be
+                            // "created by the library" (EEXIST creates nothing)
+                            let exists = sys::fstatat(d.fd, p, libc::AT_SYMLINK_NOFOLLOW).is_ok();
+                            let plain = !p.is_empty() && p != b"." && p != b".." && !p.contains(&b'/');
+                            if let (Some(z), false, true) = (zone, exists, plain) {
                                 self.workers[t].pending_create = Some((d.fd, p.clone(), z));
                             }
                         }
